@@ -45,8 +45,20 @@ def eval_expression(expr, context):
 
     # We search for all variable names starting with $, remove the $ and add
     # the value in the globals dict for eval
-    var_names = re.findall(r"\$([a-zA-Z_][a-zA-Z0-9_]*)", expr)
-    updated_expr = re.sub(r"\$([a-zA-Z_][a-zA-Z0-9_]*)", r"var_\1", expr)
+    # (a `$name` inside a string literal is text of that literal, not a variable)
+    var_names = []
+
+    def _replace_variable(match: re.Match) -> str:
+        if match.group(1) is not None:
+            return match.group(1)
+        var_names.append(match.group(2))
+        return f"var_{match.group(2)}"
+
+    updated_expr = re.sub(
+        r"""("(?:[^"\\]|\\.)*"|'(?:[^'\\]|\\.)*')|\$([a-zA-Z_][a-zA-Z0-9_]*)""",
+        _replace_variable,
+        expr,
+    )
     expr_locals = {}
 
     for var_name in var_names:
